@@ -507,6 +507,18 @@ func init() {
 		}
 		return out
 	}
+	// bit-precise batches: every size 1..maxPrefix with "the first m positions match" (m symbolic),
+	// every size 1..maxFree with an arbitrary match pattern
+	fpItems := func(maxPrefix, maxFree int) []Item {
+		var out []Item
+		for n := 1; n <= maxPrefix; n++ {
+			out = append(out, Item{P: map[string]int64{"n": int64(n), "prefix": 1}})
+		}
+		for n := 1; n <= maxFree; n++ {
+			out = append(out, Item{P: map[string]int64{"n": int64(n), "prefix": 0}})
+		}
+		return out
+	}
 	allChecks = append(allChecks, &Check{
 		ID: "C19", Level: "model_checking",
 		Harnesses: []Harness{
@@ -519,10 +531,14 @@ func init() {
 			{Name: "C19_invalid", Pkg: "component/metrics", Func: "H_C19_invalid", Reach: []string{"done"},
 				What:  "nil tensors, wrong rank (0 and 2), mismatched lengths: error, counters unchanged",
 				Items: func(string) []Item { return modes(6) }},
+			{Name: "C19_fp", Pkg: "component/metrics", Func: "H_C19_fp", Reach: []string{"done"}, FP: true,
+				What:  "BIT-PRECISE (float64 = IEEE-754 binary64 in the SMT FloatingPoint theory, int = 64-bit words): one Accumulate of a batch of exactly n positions from an arbitrary pre-state below 2^20; counters exact for every match count 0..n (prefix patterns) and for every match pattern (free patterns, small n); Result is the correctly rounded quotient of the counters",
+				Items: tiered(func() []Item { return fpItems(32, 6) }, func() []Item { return fpItems(64, 12) })},
 		},
 		Assumptions: []string{"counters are mathematical integers with 0 <= correct <= total < 2^40 (no int64 overflow within 2^40 further positions)",
-			"label pairs are identical or differ by more than 1e-200", numericModel},
-		Outside: "batches longer than 6 in one call (covered by additivity: a long batch equals its split); int64 overflow of the counters",
+			"label pairs are identical or differ by more than 1e-200", numericModel,
+			"C19_fp only: no real-number abstraction - every float operation on the way from the equality mask to the counters and to Result is one correctly rounded binary64 operation; pre-state 0 <= correct <= total <= 2^20; labels of the bit-precise batches are small integers"},
+		Outside: "batches longer than 6 in one call in the exact-real harnesses (covered by additivity: a long batch equals its split); bit-precise harness: batch sizes above 32 (quick) / 64 (thorough), free match patterns above 6 / 12 positions; int64 overflow of the counters",
 	})
 }
 
